@@ -244,6 +244,22 @@ theorem generated_stage_names :
       ["mapping", "stats", "refMarkers", "pMask", "pMarkers", "selection", "transpose"] := by
   decide
 
+/-- the seven stages are all there is: the only functions of the package that
+create a `multiprocessing.Process` are the dispatch functions of those stages
+(and the two in `corr/`, which no property covers) -/
+theorem generated_process_sites :
+    CTM.Generated.processSites =
+      ["corr/correlate_cells.py:correlate_cells",
+       "corr/correlate_cells.py:corrmap_cells",
+       "diff_exp/markers.py:create_sparse_by_pair_marker_file",
+       "diff_exp/p_value_markers.py:create_sparse_by_pair_marker_file_from_p_mask",
+       "diff_exp/p_value_mask.py:_create_p_value_mask_file",
+       "diff_exp/precompute_from_anndata.py:_precompute_summary_stats_from_h5ad_and_lookup",
+       "marker_selection/selection_pipeline.py:select_all_markers",
+       "type_assignment/election.py:run_type_assignment_on_h5ad_cpu",
+       "utils/csc_to_csr_parallel.py:_transpose_sparse_matrix_on_disk_v2"] := by
+  decide
+
 /-- every regenerated stage: has a dispatch loop, registers every started
 process in the container it polls (with the matching winnow function), drains
 after the loop, and merges by a recognised discipline -/
